@@ -80,6 +80,7 @@ class K:
         self.q_from_p = None     # C20 overlap harnesses: q is p + a0 inside the wrapper
         self.cut_inv = None      # loop cutpoint invariant: fn(header, havoc_values, entry_values) -> z3 Bool (enc.cut_header)
         self.cut_axioms = None   # fn(header, havoc_values, entry_values) -> z3 Bool: instances of spec-function definitions (assumed)
+        self.abstract_mul = False   # prove ensures first with products abstracted to an uninterpreted commutative function
         self.case_ens = []       # (name, [selector terms], fn(values) -> z3 goal | None): see ensures_by_cases
         self.trip_loop = None    # ordinal of a top-level loop whose trip count is case-split (harness.verify_function)
         self.encoder = None      # the encoder of the current case (for witness terms in lazy ensures)
@@ -144,6 +145,95 @@ def load_le(mem, addr, nbytes):
 def load_be(mem, addr, nbytes):
     bs = [z3.Select(mem, addr + enc.bv(i, 64)) for i in range(nbytes)]
     return z3.Concat(*bs) if nbytes > 1 else bs[0]
+
+
+def abstract_mul(formulas):
+    """Replaces every product of two non-constant bit-vectors (and the corresponding no-overflow predicates) by an
+    uninterpreted function of the unordered operand pair.  An over-approximation: `unsat` for the abstraction is
+    `unsat` for the real formula; it removes multiplier circuits from obligations that only need x*y == y*x == itself."""
+    cache = {}
+    ufs = {}
+
+    def uf(kind, w):
+        key = (kind, w)
+        if key not in ufs:
+            rng = z3.BitVecSort(w) if kind == "mul" else z3.BoolSort()
+            ufs[key] = z3.Function("abs!%s!%d" % (kind, w), z3.BitVecSort(w), z3.BitVecSort(w), rng)
+        return ufs[key]
+    kinds = {z3.Z3_OP_BMUL: "mul", z3.Z3_OP_BUMUL_NO_OVFL: "umul_noovfl", z3.Z3_OP_BSMUL_NO_OVFL: "smul_noovfl", z3.Z3_OP_BSMUL_NO_UDFL: "smul_noudfl"}
+
+    targets = {}
+
+    def walk(e):
+        i = e.get_id()
+        if i in cache:
+            return
+        cache[i] = True
+        if not z3.is_app(e):
+            return
+        for a in e.children():
+            walk(a)
+        kd = e.decl().kind()
+        if kd in kinds and e.num_args() == 2 and not any(z3.is_bv_value(a) for a in e.children()):
+            x, y = e.arg(0), e.arg(1)
+            sh = 0
+            if kd == z3.Z3_OP_BMUL:
+                # (x << c) * y == (x * y) << c in the ring of w-bit vectors: left shifts by constants are pulled out of the product
+                def strip(t):
+                    n = 0
+                    while True:
+                        kd2 = t.decl().kind()
+                        if kd2 == z3.Z3_OP_BSHL and z3.is_bv_value(t.arg(1)):
+                            n += t.arg(1).as_long()
+                            t = t.arg(0)
+                            continue
+                        if kd2 == z3.Z3_OP_ITE:
+                            # ite(c, 0, x << k) == ite(c, 0, x) << k   (and symmetrically)
+                            a_, b_ = t.arg(1), t.arg(2)
+                            for zero, other, flip in ((a_, b_, False), (b_, a_, True)):
+                                if z3.is_bv_value(zero) and zero.as_long() == 0 and other.decl().kind() == z3.Z3_OP_BSHL and z3.is_bv_value(other.arg(1)):
+                                    n += other.arg(1).as_long()
+                                    t = z3.If(t.arg(0), other.arg(0), zero) if flip else z3.If(t.arg(0), zero, other.arg(0))
+                                    break
+                            else:
+                                return t, n
+                            continue
+                        return t, n
+                (x, sx), (y, sy) = strip(x), strip(y)
+                sh = sx + sy
+            if x.get_id() > y.get_id():
+                x, y = y, x
+            app = uf(kinds[kd], x.size())(x, y)
+            if sh:
+                app = (app << sh) if sh < x.size() else z3.BitVecVal(0, x.size())
+            targets[i] = (e, app)
+    fs = list(formulas)          # not simplified: the rewriter pushes extracts through products and would split one product into two
+    for f in fs:
+        walk(f)
+    if not targets:
+        return fs
+    sub = list(targets.values())
+    out = [z3.substitute(f, *sub) for f in fs]
+    # commutativity, instantiated for every pair of abstracted applications of the same function
+    apps = []
+    for (_, u) in sub:
+        while z3.is_app(u) and u.decl().kind() == z3.Z3_OP_BSHL:
+            u = u.arg(0)
+        if z3.is_app(u) and u.num_args() == 2 and u.decl().name().startswith("abs!"):
+            apps.append(u)
+    for i in range(len(apps)):
+        for j in range(i + 1, len(apps)):
+            u, v = apps[i], apps[j]
+            if u.decl().eq(v.decl()):
+                out.append(z3.Implies(z3.And(u.arg(0) == v.arg(1), u.arg(1) == v.arg(0)), u == v))
+            elif u.decl().name().startswith("abs!mul!") and v.decl().name().startswith("abs!mul!") and u.size() != v.size():
+                # truncation is a ring homomorphism: the low bits of a wide product are the narrow product of the low bits
+                wide, narrow = (u, v) if u.size() > v.size() else (v, u)
+                nw = narrow.size()
+                lo = lambda t: z3.Extract(nw - 1, 0, t)
+                for (a_, b_) in ((0, 1), (1, 0)):
+                    out.append(z3.Implies(z3.And(lo(wide.arg(0)) == narrow.arg(a_), lo(wide.arg(1)) == narrow.arg(b_)), lo(wide) == narrow))
+    return out
 
 
 def _solve(assertions, timeout_ms):
@@ -328,7 +418,12 @@ def _verify_case(mod, fname, contract, params, unroll, prop_prefix, only_safety,
                 obs.append(core.Obligation("%s.%s" % (name0, nm), core.PROVED, "z3-5.1(py)", dt / len(ens),
                                            detail="discharged in one query with the wrapper's other %d ensures" % (len(ens) - 1)))
     for (nm, goal) in ([] if batched else ens):
-        r, s, dt = _solve(pre + [rc, z3.Not(goal)], Z3_MS)
+        if k.abstract_mul:
+            r, s, dt = _solve(abstract_mul(pre + [rc, z3.Not(goal)]), Z3_MS)
+            if r != z3.unsat:        # the abstraction is only good for proofs; anything else is decided on the real formula
+                r, s, dt = _solve(pre + [rc, z3.Not(goal)], Z3_MS)
+        else:
+            r, s, dt = _solve(pre + [rc, z3.Not(goal)], Z3_MS)
         if r == z3.unsat:
             obs.append(core.Obligation("%s.%s" % (name0, nm), core.PROVED, "z3-5.1(py)", dt))
         elif r == z3.sat:
